@@ -238,6 +238,27 @@ def run_W5(chk):
             ok = A.text(ch[0].value.value) == f"ts[{jn}]" and A.text(sw[0].targets[0]) == f"ts[{dn}]" and A.text(sw[0].value.args[0]) == f"ts[{dn}]" \
                 and A.text(A.kwarg(sw[0].value, "axes")) == dl and A.text(A.kwarg(sw[0].value, "charge")) == cvar
             detail = f"charge of ts[{jn}] -> swap_gate(ts[{dn}], axes={dl}, charge=...)"
+    # the correction may be skipped only when the jumped tensor's charge vanishes in *every* component: swap_gate itself restricts to
+    # the fermionic components, any narrower test (parity of the summed components, first component only) skips needed corrections
+    if ok:
+        sws = [n for n in ast.walk(br[0]) if isinstance(n, ast.Assign) and isinstance(n.value, ast.Call) and A.call_name(n.value) == "swap_gate"]
+        par_ = A.enclosing_map(ex.node)
+        cur = sws[0]
+        guards_ = []
+        while cur in par_ and par_[cur] is not br[0]:
+            cur = par_[cur]
+            if isinstance(cur, ast.If):
+                guards_.append(cur)
+        from ..core.minieval import evaluate, CannotEvaluate
+        for g_ in guards_:
+            try:
+                fires = {w: bool(evaluate(g_.test, {cvar: w})) for w in ((0,), (1,), (0, 0), (1, 1), (1, 0, 1), (2, 0), (0, 0, 0))}
+            except CannotEvaluate as e:
+                raise AnalysisError(f"_execute_commands: guard of the parity correction `{A.text(g_.test)}` cannot be evaluated ({e})")
+            wrong = [w for w, v in fires.items() if v != any(w)]
+            chk.verdict("W5", (ex, g_), f"parity correction skipped only for vanishing charge (`{A.text(g_.test)}`)", True if not wrong else False,
+                        f"_execute_commands: the guard `{A.text(g_.test)}` of the parity correction disagrees with `any(charge)` for charges {wrong}: "
+                        f"for product symmetries a charge with an odd fermionic component and an even component sum loses its sign correction")
     chk.verdict("W5", (ex, br[0]), f"parity_sign handler: {detail}", True if ok else False,
                 "_execute_commands: the parity_sign correction must apply the charge of the jumped tensor as a string on the partner leg "
                 "(swap_gate(ts[d_ten], axes=d_legs, charge=ts[jumped].n) stored back into ts[d_ten])")
